@@ -200,3 +200,39 @@ theorem Ed_length {n : Nat} {a b : List α} (h : Ed n a b) :
 theorem lev_length (a b : List α) : a.length ≤ b.length + lev a b ∧ b.length ≤ a.length + lev a b :=
   Ed_length (lev_Ed a b)
 end Prs
+
+namespace Prs
+variable {α : Type} [DecidableEq α]
+/-- equal-length strings: substituting the mismatching positions is an alignment -/
+theorem Ed_mismatches : ∀ (a b : List α), a.length = b.length → Ed (mismatches a b) a b
+  | [], [], _ => Ed.nil
+  | [], _ :: _, h => by simp at h
+  | _ :: _, [], h => by simp at h
+  | x :: a, y :: b, h => by
+    have ih := Ed_mismatches a b (by simpa using h)
+    by_cases hxy : x = y
+    · subst hxy; simpa [mismatches] using Ed.keep x ih
+    · have := Ed.sub x y ih
+      simpa [mismatches, hxy, Nat.add_comm] using this
+
+theorem lev_le_mismatches (a b : List α) (h : a.length = b.length) : lev a b ≤ mismatches a b :=
+  Ed_lev (Ed_mismatches a b h)
+
+theorem mismatches_comm : ∀ (a b : List α), mismatches a b = mismatches b a
+  | [], [] => rfl
+  | [], _ :: _ => rfl
+  | _ :: _, [] => rfl
+  | x :: a, y :: b => by
+    simp only [mismatches, mismatches_comm a b]
+    by_cases h : x = y
+    · subst h; rfl
+    · have h' : ¬ y = x := fun e => h e.symm
+      simp [h, h']
+
+theorem ham_comm (a b : List α) : ham a b = ham b a := by
+  unfold ham
+  by_cases h : a.length = b.length
+  · simp [h, mismatches_comm a b]
+  · have h' : ¬ b.length = a.length := fun e => h e.symm
+    simp [h, h']
+end Prs
